@@ -58,3 +58,37 @@ package cram
 //@   loop 0 invariant @idx 0 - 1 <= rangeindex && rangeindex < len(s) && fresh(s)
 //@   loop 0 decreases len(s) - rangeindex
 //@   ensures[C11] @frame r.r == old(r.r)
+
+// Block.Value and expandBlockdata (C11): whatever method and type bytes and
+// data a block read from a CRAM stream carries, Value returns a value or an
+// error. The decompressors and the header parser are dependencies.
+//@ trusted func ext:compress/gzip.NewReader
+//@   ensures result1 == nil ==> result0 != nil
+//@ trusted func ext:bytes.NewReader
+//@   ensures result != nil
+//@ trusted func ext:io.ReadAll
+//@ trusted func ext:compress/bzip2.NewReader
+//@ trusted func ext:github.com/ulikunitz/xz/lzma.NewReader
+//@   ensures result1 == nil ==> result0 != nil
+//@ trusted func ext:errors.New
+//@   ensures result != nil
+//@ trusted func ext:fmt.Sprintf
+//@ trusted func ext:encoding/binary.littleEndian.Uint32
+//@   requires len(b) >= 4
+//@ trusted func ext:github.com/biogo/hts/sam.Header.UnmarshalText
+//@   modifies all(bh)
+//@ trusted func Slice.readFrom
+//@   modifies all(s)
+
+//@ func Block.expandBlockdata
+//@   mode int
+//@   props C11
+//@   decoder
+//@   requires b != nil
+
+//@ func Block.Value
+//@   mode int
+//@   props C11
+//@   decoder
+//@   requires b != nil
+//@   modifies b.blockData, b.method
